@@ -27,6 +27,9 @@ CHECKS = {
     'C07': (EX, 'exhaustive enumeration of figure_tax over every whole dollar 0..99,999 x 5 statuses x 3 years, row edges, bracket boundaries and a fixed grid to 1e12, against independently written statutory brackets (midpoint rule / bracket formula)',
             'Every whole-dollar taxable income below $100,000 and every boundary above is evaluated on the shipped figure_tax and compared with statutory.py; monotonicity, marginal-rate bound and QSS==MFJ checked on the same enumeration.',
             'Trusted: hv/statutory.py (brackets from Rev. Proc. 2020-45/2021-45/2022-38), cross-checked: reproduces every shipped table cell and worksheet constant.', '5/C07'),
+    'C08': (EX, 'exhaustive enumeration of (year, status, statutory amount) triples: witness returns on the real solver (echo lines), pairs of returns one cent/dollar either side of each gating threshold, single-line evaluation for amounts only visible on aborting paths; independent table + amounts printed in the templates',
+            '763 of 780 triples are witnessed (17 listed as unwitnessed with reasons); echoed lines equal hv/statutory_amounts.py, gated outcomes flip exactly at the official value, printed template amounts agree.',
+            'Trusted: hv/statutory_amounts.py (Rev. Proc. 2020-45/2021-45/2022-38, form instructions, NC D-401), cross-checked against template text and hv/statutory.py.', '5/C08'),
     'C09': (MC, 'deviation-bounded exploration of real returns (prompt tree) with a frozen gate table: (A) gate lines reading yes never coexist with a solved verdict, (B) every frozen declared-unsupported context re-declared via prompt and via file must not solve',
             'All boolean inputs are flipped in every base return (d<=1; thorough d<=2) and the over-limit amount gates are driven; the table hv/gates.json (1132 contexts, 420 (line,input) gate pairs derived by E4) pins what must keep refusing.',
             'Trusted: hv/gates.json, generated on the repaired tree by tools/mk_gates.py and reviewed; entries must be retired if habutax implements a situation.', '5/C09'),
